@@ -47,6 +47,9 @@ def scenarios(ctx):
     S.append(("state:socket-full", ini(b"%{cmdline}", b"socket:" + ctx.full), {"noinject": True}))
     S.append(("state:devlog-absent", ini(b"%{cmdline}", b"devlog", b"error_logging = yes\n"), {"noinject": True, "devlog": ctx.nosock}))
     S.append(("state:devlog-full", ini(b"%{cmdline}", b"devlog"), {"noinject": True, "devlog": ctx.full}))
+    stall = os.path.join(ctx.w, "stall.sock").encode()
+    S.append(("state:socket-stream-stalled", ini(b"%{cmdline}", b"socket:" + stall, b"error_logging = yes\n"), {"noinject": True, "stall": stall}))
+    S.append(("state:devlog-stream-stalled", ini(b"%{cmdline}", b"devlog"), {"noinject": True, "devlog": stall, "stall": stall}))
     S.append(("state:devtty-no-terminal", ini(b"%{cmdline}", b"devtty", b"error_logging = yes\n"), {"noinject": True, "setsid": True}))
     return S
 
@@ -55,6 +58,8 @@ def script_for(ctx, ini, opts):
     s = drv.Script()
     s.add("sinksock", "sock", drv.hx(ctx.sock)).add("sinkdevlog", "devlog", drv.hx(opts.get("devlog", ctx.devlog)))
     s.add("sinkfull", "full", drv.hx(ctx.full)).add("fillsock", drv.hx(ctx.full)).add("sinkstd").add("ptypair").add("sighandlers")
+    if opts.get("stall"):
+        s.add("sinkstall", drv.hx(opts["stall"])).add("envset", drv.hx(b"REC_DEVLOG"), drv.hx(opts.get("devlog", ctx.devlog)))
     if opts.get("pty"):
         s.add("sinkpty")
     if opts.get("setsid"):
